@@ -76,8 +76,24 @@ Payload(S, x, name, p) ==
 (* from an empty node, which reads like `~`: a unit, None, an empty sequence / map, a struct all of whose fields are  *)
 (* options, and so on recursively; a tuple variant and scalar payloads cannot                                          *)
 NullStream == <<Ev("S", 0, "~", "p", "")>>
+(* `!Variant payload`: the tag names the variant, the node itself (a scalar or a sequence; the crate does not look at   *)
+(* tags on mappings) is the payload.  A tagged scalar is handed to the payload as a string, so a string payload takes  *)
+(* the text as it is; the other payload kinds read the untagged node.  A unit variant carries no payload: its scalar   *)
+(* must be empty or null-like.                                                                                         *)
+TagName(t) == IF Len(t) >= 2 /\ SubSeq(t, 1, 1) = "!" /\ SubSeq(t, 2, 2) # "!" THEN SubSeq(t, 2, Len(t)) ELSE ""
+Untag(x, i) == [x EXCEPT ![i].t = ""]
+TaggedEnumAt(S, x, i) ==
+  LET name == TagName(x[i].t)  y == Untag(x, i) IN
+  IF name \notin VariantNames THEN ERRN
+  ELSE IF x[i].k = "S" THEN
+     (CASE name = "U" -> IF NullLikeNode(y, i) \/ y[i].v = "" THEN V("U", "", <<>>) ELSE ERRN
+        [] name = "Nw" -> IF S.ss[1].t = "Str" THEN V("Nw", "", <<V("S", x[i].v, <<>>)>>) ELSE Payload(S, y, "Nw", i)
+        [] name = "St" -> Payload(S, y, "St", i)
+        [] OTHER -> ERRN)
+  ELSE (CASE name \in {"T", "Nw"} -> Payload(S, y, name, i) [] OTHER -> ERRN)
 EnumAt(S, x, i) ==
-  IF x[i].k = "S" THEN
+  IF x[i].k \in {"S", "SS"} /\ TagName(x[i].t) # "" THEN TaggedEnumAt(S, x, i)
+  ELSE IF x[i].k = "S" THEN
      (IF x[i].t # "" THEN ERRN
       ELSE IF x[i].v = "U" THEN V("U", "", <<>>)
       ELSE IF x[i].v \in {"Nw", "St"} THEN Payload(S, NullStream, x[i].v, 1)
